@@ -41,12 +41,12 @@ def build_design(s, shape, gated, enw=1, en_src='input', late=False):
     en = {}
     info = {'ins': ins, 'en': en, 'gated_boxes': [], 'pending': []}
 
-    def gate(box, name, enable_wire):
+    def gate(box, name, enable_wire, base=None):
         if gated and late:
             # the driver is assigned only after a first simulator has been obtained (see run)
             info['pending'].append((box, name, enable_wire))
         elif gated:
-            box.clockDriver = ClockDriver(name, base=s.clockDriver, enable=enable_wire)
+            box.clockDriver = ClockDriver(name, base=(base.clockDriver if base is not None else s.clockDriver), enable=enable_wire)
         en[name] = enable_wire
         info['gated_boxes'].append((name, box))
 
@@ -122,7 +122,7 @@ def build_design(s, shape, gated, enw=1, en_src='input', late=False):
         gate(box, 'gck', e)
         q1 = s.wire('q1', w)
         Reg(s, 'r1', o, q1)
-    elif shape == 'nested':
+    elif shape in ('nested', 'nested-chain'):
         e1 = s.wire('en1', 1)
         e2 = s.wire('en2', 1)
         ins['en1'] = e1
@@ -140,7 +140,8 @@ def build_design(s, shape, gated, enw=1, en_src='input', late=False):
             D.Box(b, 'inner', {'x': mid, 'en2': e2}, {'y': o}, inner)
         box = D.Box(s, 'outer', {'q0': q0, 'en1': e1, 'en2': e2}, {'o': o}, outer)
         gate(box, 'gck1', e1)
-        gate(boxes['inner'], 'gck2', e2)
+        # nested-chain: the inner driver is derived from the outer GATED driver (base chain), not from the system clock
+        gate(boxes['inner'], 'gck2', e2, base=(box if shape == 'nested-chain' else None))
         q1 = s.wire('q1', w)
         Reg(s, 'r1', o, q1)
     elif shape.startswith('random#'):
@@ -338,7 +339,7 @@ def multi_task(p, cfg, rec):
 def cfgs(tier):
     quick = tier == 'quick'
     out = []
-    for shape in ('block', 'fsm', 'ancestor', 'nested', 'three'):
+    for shape in ('block', 'fsm', 'ancestor', 'nested', 'nested-chain', 'three'):
         out.append(('%s enable=input' % shape, {'shape': shape, 'enw': 1, 'en_src': 'input'}))
     out.append(('block enable=2-bit input', {'shape': 'multibit', 'enw': 2, 'en_src': 'input'}))
     out.append(('block enable=register inside the gated domain', {'shape': 'inside', 'enw': 1, 'en_src': 'inside'}))
@@ -362,7 +363,7 @@ def multi_cfgs(tier):
     out = []
     for n in ((2, 3) if quick else (2, 3, 4)):
         for shape, enw, en_src in (('block', 1, 'comb'), ('block', 1, 'combbase'), ('block', 1, 'inside'), ('block', 1, 'input'),
-                                   ('fsm', 2, 'comb'), ('nested', 1, 'input')):
+                                   ('fsm', 2, 'comb'), ('nested', 1, 'input'), ('nested-chain', 1, 'input')):
             if quick and n == 3 and shape != 'block':
                 continue
             out.append(('clk(%d) in one call: %s enable=%s/%d' % (n, shape, en_src, enw), {'shape': shape, 'enw': enw, 'en_src': en_src, 'n': n}))
